@@ -449,6 +449,239 @@ void HistSim::opShared(const Op& op, size_t ix) {
   endOp(j, op, ix);
 }
 
+// a Printable whose text goes through the library's string builder (doc.set(printable))
+namespace {
+class SimPrintable : public Printable {
+ public:
+  explicit SimPrintable(const std::string& s, size_t chunk) : s_(s), chunk_(chunk ? chunk : 1) {}
+  size_t printTo(Print& p) const override {
+    size_t n = 0;
+    for (size_t i = 0; i < s_.size();) {
+      size_t k = std::min(chunk_, s_.size() - i);
+      size_t w = k == 1 ? p.write(uint8_t(s_[i])) : p.write(reinterpret_cast<const uint8_t*>(s_.data() + i), k);
+      n += w;
+      if (w < k)
+        break;  // the sink stopped accepting (allocation failure inside the builder)
+      i += k;
+    }
+    return n;
+  }
+
+ private:
+  std::string s_;
+  size_t chunk_;
+};
+}  // namespace
+
+// reading through proxies never creates anything: h[s1][s2].is<T>() / as<T>() / isNull() / size()
+void HistSim::opPeek(const Op& op, size_t ix) {
+  Ref* h = resolve(op, "h");
+  Sel s1 = Sel::parse(op.str("s1")), s2 = Sel::parse(op.str("s2"));
+  if (h->view != 'v') {
+    lastSkip = "view";
+    return;
+  }
+  int doc = h->doc;
+  const Val* node = findNode(doc, h->node);
+  auto child = [](const Val* n, const Sel& s) -> const Val* {
+    if (!n)
+      return nullptr;
+    if (s.isKey && n->k == K::Obj)
+      return n->member(s.key);
+    if (!s.isKey && n->k == K::Arr && s.idx < n->a.size())
+      return &n->a[s.idx];
+    return nullptr;
+  };
+  const Val* target = child(child(node, s1), s2);
+  Judge j;
+  j.doc = -1;
+  j.hasReturn = false;
+  if (real_) {
+    startFaults(op);
+    uint64_t before = 0;
+    for (auto& a : allocs_)
+      before += a->calls();
+    JsonVariant v = realVariant(*h);
+    bool viadoc = h->root && op.num("via") == 1;
+    JsonDocument& d = *docs_[size_t(doc)].doc;
+    auto look = [&](auto&& proxy) {
+      WalkOpts wo;
+      wo.cls = "C04:proxy-read";
+      wo.lookups = false;
+      JsonVariantConst c = proxy;  // conversion of a proxy to a const reference
+      Val got = extract(c, wo);
+      Val want = target ? *target : Val::null();
+      if (!sameValue(got, want))
+        violate("C04:proxy-read", "reading through proxies gives " + toText(got).substr(0, 80) + ", the model says " +
+                                      toText(want).substr(0, 80));
+      if (proxy.isNull() != (want.k == K::Null) || proxy.size() != want.size())
+        violate("C04:proxy-read", "isNull()/size() through proxies disagree with the model");
+      bool isInt = proxy.template is<int>();
+      int asInt = proxy.template as<int>();
+      int dflt = proxy | 12345;
+      if (want.k == K::UInt && want.u < 1000 && (!isInt || asInt != int(want.u) || dflt != int(want.u)))
+        violate("C04:proxy-read", "is<int>/as<int>/operator| through proxies disagree with the model");
+      if (!want.isNum() && want.k != K::Str && want.k != K::Bool && dflt != 12345)
+        violate("C04:proxy-read", "operator| did not fall back to its default for a non-numeric value");
+      if (want.k == K::Str) {
+        std::string sdef = proxy | std::string("dflt");
+        if (sdef != want.s.substr(0, sdef.size()) && want.s.find('\0') == std::string::npos)
+          violate("C04:proxy-read", "operator| on a string through proxies disagrees with the model");
+      }
+      obs.u(valueHash(got));
+    };
+    if (s1.isKey && s2.isKey) {
+      if (viadoc)
+        look(d[s1.key][s2.key]);
+      else
+        look(v[s1.key][s2.key]);
+    } else if (s1.isKey) {
+      if (viadoc)
+        look(d[s1.key][s2.idx]);
+      else
+        look(v[s1.key][s2.idx]);
+    } else if (s2.isKey) {
+      if (viadoc)
+        look(d[s1.idx][s2.key]);
+      else
+        look(v[s1.idx][s2.key]);
+    } else {
+      if (viadoc)
+        look(d[s1.idx][s2.idx]);
+      else
+        look(v[s1.idx][s2.idx]);
+    }
+    uint64_t after = 0;
+    for (auto& a : allocs_)
+      after += a->calls();
+    if (after != before)
+      violate("C06:readonly-allocates", "reading through proxies called the allocator");
+  }
+  endOp(j, op, ix);  // checkAll verifies that nothing was created
+}
+
+// for (JsonVariant e : array) e.set(x)  /  for (JsonPair kv : object) kv.value().set(x)
+void HistSim::opEach(const Op& op, size_t ix) {
+  Ref* h = resolve(op, "h");
+  if (h->view == 'c') {
+    lastSkip = "view";
+    return;
+  }
+  int doc = h->doc;
+  Val* node = findNode(doc, h->node);
+  if (!node->isContainer()) {
+    lastSkip = "kind";
+    return;
+  }
+  Val v = parseText(op.str("v"));
+  normalise(v, kUseDouble);
+  if (v.isContainer())
+    v = Val::integer(3);
+  Judge j;
+  beginOp(j, doc, pathOf(doc, h->node));
+  j.hasReturn = false;
+  // several assignments in one step: a later one may release slots after an earlier one needed a new
+  // pool, so the "no new pool while the free list is non-empty" rule does not apply to this step
+  poolsBefore_[size_t(doc)] = SIZE_MAX;
+  for (auto& e : node->a)
+    assignContent(e, v);
+  for (auto& m : node->o)
+    assignContent(m.second, v);
+  if (real_) {
+    startFaults(op);
+    JsonVariant dst = realVariant(*h);
+    size_t arg = 0;
+    if (node->k == K::Arr) {
+      JsonArray a = h->view == 'a' ? h->a : dst.as<JsonArray>();
+      for (JsonVariant e : a)
+        realSetValue(e, v, ix, arg++);
+    } else {
+      JsonObject o = h->view == 'o' ? h->o : dst.as<JsonObject>();
+      for (JsonPair kv : o)
+        realSetValue(kv.value(), v, ix, arg++);
+    }
+  }
+  endOp(j, op, ix);
+}
+
+// a string of maxLength-1 / maxLength / maxLength+1 bytes through the API (the limit is a build option)
+void HistSim::opLongSet(const Op& op, size_t ix) {
+  Ref* h = resolve(op, "h");
+  if (h->view != 'v') {
+    lastSkip = "view";
+    return;
+  }
+  size_t maxLen = detail::StringNode::maxLength;
+  if (maxLen > 70000) {
+    lastSkip = "length-limit-out-of-reach";
+    return;
+  }
+  long over = long(op.num("over"));
+  size_t len = size_t(long(maxLen) + over);
+  std::string s(len, 'q');
+  for (size_t q = 0; q < len; q += 89)
+    s[q] = char('a' + (q / 89) % 26);
+  bool asKey = op.str("where") == "key";
+  int doc = h->doc;
+  Val* node = findNode(doc, h->node);
+  Judge j;
+  auto region = pathOf(doc, h->node);
+  if (asKey)
+    region.push_back(Sel::k(s));
+  beginOp(j, doc, region);
+  bool fits = len <= maxLen;
+  if (asKey) {
+    Val* slot = fits ? mGetOrCreate(*node, Sel::k(s)) : nullptr;
+    if (slot)
+      assignContent(*slot, Val::integer(1));
+    // a key that cannot be stored: nothing is added; on a value of the wrong kind nothing happens either
+    j.predicted = slot != nullptr;
+  } else {
+    // a string value that cannot be stored leaves null behind and reports the failure
+    assignContent(*node, fits ? Val::str(s) : Val::null());
+    j.predicted = fits;
+  }
+  if (real_) {
+    startFaults(op);
+    JsonVariant dst = realVariant(*h);
+    unsigned how = unsigned(op.num("via"));
+    if (asKey) {
+      j.actual = dst[s].set(1);
+    } else if (how == 1) {
+      // const char*: stored by address, so no length limit applies
+      const char* p = arena_.intern(s);
+      j.actual = dst.set(p);
+      Val* n2 = findNode(doc, h->node);
+      assignContent(*n2, Val::str(s, true));
+      j.predicted = true;
+      fits = true;
+    } else if (how == 2) {
+      SimPrintable pr(s, 1 + size_t(op.num("chunk", 7)));
+      j.actual = dst.set(pr);
+    } else {
+      j.actual = dst.set(s);
+    }
+    auto& ds = docs_[size_t(doc)];
+    bool kindAllows = !asKey || j.pre.k == K::Null || j.pre.k == K::Obj || !pathOf(doc, h->node).empty();
+    if (asKey) {
+      // the key is only looked at when the target can hold members
+      const Val* before = &j.pre;
+      for (auto& sel : pathOf(doc, h->node))
+        before = before ? (sel.isKey ? before->member(sel.key) : (sel.idx < before->a.size() ? &before->a[sel.idx] : nullptr)) : nullptr;
+      kindAllows = before && (before->k == K::Null || before->k == K::Obj);
+    }
+    if (!fits && how != 1 && kindAllows) {
+      count("limit.string_too_long_api");
+      if (!ds.doc->overflowed())
+        violate("C19:limit-unreported", "a string above the length limit was refused but overflowed() is false");
+      ds.leaky = true;
+    } else if (fits) {
+      count("limit.string_at_limit_api");
+    }
+  }
+  endOp(j, op, ix);
+}
+
 // ======================================================================= stepping
 
 void HistSim::step(const Op& op, size_t ix) {
@@ -495,6 +728,12 @@ void HistSim::step(const Op& op, size_t ix) {
     opFill(op, ix);
   else if (name == "shr")
     opShared(op, ix);
+  else if (name == "peek")
+    opPeek(op, ix);
+  else if (name == "each")
+    opEach(op, ix);
+  else if (name == "longset")
+    opLongSet(op, ix);
   else
     throw HarnessError("unknown hist op " + name);
   if (!lastSkip.empty()) {
@@ -739,6 +978,34 @@ struct Gen {
         via(3);
         return op;
       }
+    }
+    if (mode == "limit" && r.chance(1, 8)) {
+      op = mkop("longset");
+      static const char* wh[] = {"value", "value", "key"};
+      op.setu("h", pickRef('v')).set("over", r.range(-2, 2)).set("where", wh[r.below(3)]).set("chunk", r.range(0, 40));
+      via(3);
+      return op;
+    }
+    if (r.chance(1, 30)) {
+      op = mkop("peek");
+      size_t h = pickRef('v');
+      const Val* n = sim.nodeOf(*refs[h]);
+      Sel s1 = pickSel(*n, true);
+      Val none;
+      const Val* mid = &none;
+      if (s1.isKey && n->k == K::Obj && n->member(s1.key))
+        mid = n->member(s1.key);
+      if (!s1.isKey && n->k == K::Arr && s1.idx < n->a.size())
+        mid = &n->a[s1.idx];
+      op.setu("h", h).set("s1", s1.text()).set("s2", pickSel(*mid, r.chance(2, 3)).text());
+      via(2);
+      return op;
+    }
+    if (r.chance(1, 50)) {
+      op = mkop("each");
+      size_t h = r.chance(1, 2) ? pickRef(0, K::Arr, true) : pickRef(0, K::Obj, true);
+      op.setu("h", h).set("v", toText(genScalar(r, vo)));
+      return op;
     }
     if (sel < 150) {
       op = mkop("sets");
